@@ -81,7 +81,10 @@ pub fn parse(s: &str) -> Parsed {
             if !digits(f) {
                 return Parsed::Odd;
             }
-            (format!("{}{}", ip, f), f.len() as u32)
+            // zeros written beyond the 28th decimal carry no value (see below); drop them here so
+            // that arbitrarily long paddings are read
+            let f2 = if f.len() > 28 { f.trim_end_matches('0') } else { f };
+            (format!("{}{}", ip, f2), f2.len() as u32)
         }
     };
     if mant_str.len() > 75 {
